@@ -10,3 +10,7 @@ Definition c13_status_ok (t : ttask) (o : tobs) : bool :=
   let m := run_task (to_task t) in
   Bool.eqb (o_err m) (ob_err (to_obs o)) && Bool.eqb (o_errored m) (ob_errored (to_obs o)) && Bool.eqb (o_skipped m) (ob_skipped (to_obs o)).
 Definition c13_timely (t : ttask) (o : tobs) : bool := to_timely o.
+
+(* through the binary: the commands that started (trace file), whether the process reported failure, whether it ended within the bound *)
+Definition c13_cli_trace_ok (t : ttask) (trace : list tok) : bool := list_eqb tok_eqb (o_trace (run_task (to_task t))) trace.
+Definition c13_cli_status_ok (t : ttask) (failed : bool) : bool := Bool.eqb (o_err (run_task (to_task t))) failed.
